@@ -145,4 +145,19 @@ private:
 
 #endif // C++17
 
+namespace datasketches {
+
+// uninitialized, suitably aligned space for one T, for a serde to construct an item into.
+// A disengaged optional must not be used as such space: dereferencing it is undefined behavior
+// with std::optional (and aborts in a standard library built with assertions)
+template<typename T>
+class item_space {
+public:
+  T& operator*() noexcept { return *reinterpret_cast<T*>(space_); }
+private:
+  alignas(T) unsigned char space_[sizeof(T)];
+};
+
+} // namespace
+
 #endif // _OPTIONAL_HPP_
